@@ -3,6 +3,7 @@ package props
 import (
 	"context"
 	"fmt"
+	"sort"
 	"strings"
 	"testing"
 
@@ -27,11 +28,11 @@ type evStream struct {
 }
 
 func (f *evStream) Send(m *hydrapb.SubscribeToEventsResponse) error { return f.SendMsg(m) }
-func (f *evStream) SetHeader(metadata.MD) error                      { return nil }
-func (f *evStream) SendHeader(metadata.MD) error                     { return nil }
-func (f *evStream) SetTrailer(metadata.MD)                           {}
-func (f *evStream) Context() context.Context                         { return f.ctx }
-func (f *evStream) RecvMsg(m any) error                              { return nil }
+func (f *evStream) SetHeader(metadata.MD) error                     { return nil }
+func (f *evStream) SendHeader(metadata.MD) error                    { return nil }
+func (f *evStream) SetTrailer(metadata.MD)                          {}
+func (f *evStream) Context() context.Context                        { return f.ctx }
+func (f *evStream) RecvMsg(m any) error                             { return nil }
 func (f *evStream) SendMsg(m any) error {
 	f.inSend++
 	if f.inSend > 1 {
@@ -229,7 +230,7 @@ func TestC19(t *testing.T) {
 		names = append(names, o.name)
 	}
 	r.Extra["alphabet"] = names
-	r.Rule = fmt.Sprintf("sequential part: every history of length <= %d over %v on an in-memory swamp and on a persistent one, with the subscription window [subscribe, unsubscribe) placed at every pair of positions 0 <= i < j <= len (the swamp may not exist yet when the client subscribes, and may be emptied and re-created inside the window); the real SubscribeToEvents handler runs as a second managed thread with a recording stream; oracle: the recorded events equal the model's change log of the window - one NEW/UPDATED/DELETED per record created, changed or removed, none for a Set of the same value and for reads, in commit order, carrying the committed value, EventTime = the virtual clock at the change (exact). Concurrent part: two writers (Set on different keys) and a subscriber under the controlled scheduler, every schedule with at most 1 (quick) / 2 (thorough) preemptions; the stream yields inside SendMsg and counts overlapping calls; per-key order and payload are checked. Non-trivial = windows containing at least one change", maxLen, names)
+	r.Rule = fmt.Sprintf("sequential part: every history of length <= %d over %v on an in-memory swamp and on a persistent one, with the subscription window [subscribe, unsubscribe) placed at every pair of positions 0 <= i < j <= len (the swamp may not exist yet when the client subscribes, and may be emptied and re-created inside the window); the real SubscribeToEvents handler runs as a second managed thread with a recording stream; oracle: the recorded events equal the model's change log of the window - one NEW/UPDATED/DELETED per record created, changed or removed, none for a Set of the same value and for reads, in commit order, carrying the committed value, EventTime = the virtual clock at the change (exact). Concurrent part: two writers (Set on different keys) and a subscriber under the controlled scheduler, every schedule with at most 1 (quick) / 2 (thorough) preemptions; the stream yields inside SendMsg and counts overlapping calls; per-key order and payload are checked. Same-key part: two writers on ONE existing key ({Set||Set, Set;Set||Set, Set||Inc}) on an in-memory and on an immediate-write persistent swamp, same bounds; the events of the key together with the value read afterwards must equal the change log and final value of one sequential order of the operations. Non-trivial = windows containing at least one change", maxLen, names)
 	r.Assumptions = []string{"the stream is an in-process recorder; gRPC's rule that SendMsg must not be called concurrently on one stream is checked by counting overlapping calls", "OldTreasure of UPDATED events is not compared (the property speaks about the committed values)"}
 	type item struct {
 		hist     []int
@@ -302,6 +303,7 @@ func TestC19(t *testing.T) {
 			}
 		}
 		c19concurrent(r)
+		c19sameKey(r)
 	})
 }
 
@@ -417,5 +419,148 @@ func c19concurrent(r *kit.Run) {
 			r.NotExhaustive(fmt.Sprintf("concurrent programs %v capped after %d executions", pr, e.Stats.Execs))
 		}
 		r.SetMax("max_points_per_execution", int64(e.Stats.MaxPoints))
+	}
+}
+
+// c19sameKey: two writers on the SAME key (which exists before, a=9) and one subscriber, on an in-memory swamp and on
+// an immediate-write persistent swamp (the save path releases the record guard inside SaveFunction there); all
+// schedules up to the preemption bound. Oracle: the events of key a and the value read afterwards equal the change
+// log and final value of ONE sequential order of the writers' operations (commit order, committed values).
+func c19sameKey(r *kit.Run) {
+	bound := 1
+	if !r.Quick() {
+		bound = 2
+	}
+	progs := [][2][]string{
+		{{"Set(a,1)"}, {"Set(a,2)"}},
+		{{"Set(a,1)", "Set(a,2)"}, {"Set(a,1)"}},
+		{{"Set(a,1)"}, {"Inc(a,+1)"}},
+	}
+	ops := c19ops()
+	byName := map[string]c19op{}
+	for _, o := range ops {
+		byName[o.name] = o
+	}
+	strip := func(ev string) string { f := strings.Fields(ev); return f[0] + " " + f[1] }
+	for _, conf := range []string{"mem", "imm"} {
+		for pi, pr := range progs {
+			pr, conf := pr, conf
+			// admissible (events of a, final value of a) pairs: one per interleaving of the two programs
+			adm := map[string]bool{}
+			var rec func(i, j int, m map[string]string, evs []string)
+			rec = func(i, j int, m map[string]string, evs []string) {
+				if i == len(pr[0]) && j == len(pr[1]) {
+					adm[strings.Join(evs, ";")+" => "+m["a"]] = true
+					return
+				}
+				step := func(on string, ni, nj int) {
+					m2 := map[string]string{}
+					for k, v := range m {
+						m2[k] = v
+					}
+					e2 := append([]string(nil), evs...)
+					for _, ev := range byName[on].model(m2, 0) {
+						e2 = append(e2, strip(ev))
+					}
+					rec(ni, nj, m2, e2)
+				}
+				if i < len(pr[0]) {
+					step(pr[0][i], i+1, j)
+				}
+				if j < len(pr[1]) {
+					step(pr[1][j], i, j+1)
+				}
+			}
+			rec(0, 0, map[string]string{"a": "i32:9", "z": "i32:9"}, nil)
+			var admL []string
+			for k := range adm {
+				admL = append(admL, k)
+			}
+			sort.Strings(admL)
+			var st *evStream
+			var final string
+			body := func() {
+				rg := newRig(true)
+				swamp := conf + "/r/same"
+				rg.gw.Set(bg, &hydrapb.SetRequest{Swamps: []*hydrapb.SwampRequest{{IslandID: 1, SwampName: swamp, CreateIfNotExist: true, Overwrite: true, KeyValues: []*hydrapb.KeyValuePair{{Key: "z", Int32Val: p(int32(9))}, {Key: "a", Int32Val: p(int32(9))}}}}})
+				ctx, cancel := context.WithCancel(bg)
+				st = &evStream{ctx: ctx, yield: true}
+				s := st
+				vrt.Go("subscriber", func() {
+					rg.gw.SubscribeToEvents(&hydrapb.SubscribeToEventsRequest{IslandID: 1, SwampName: swamp}, s)
+				})
+				vrt.Drain()
+				var ths []*vrt.Thread
+				for wi := 0; wi < 2; wi++ {
+					wi := wi
+					ths = append(ths, vrt.Go(fmt.Sprintf("writer%d", wi), func() {
+						for _, on := range pr[wi] {
+							byName[on].run(rg, swamp)
+						}
+					}))
+				}
+				for _, th := range ths {
+					vrt.Join(th)
+				}
+				final = "?"
+				if g, _ := rg.gw.Get(bg, &hydrapb.GetRequest{Swamps: []*hydrapb.GetSwamp{{IslandID: 1, SwampName: swamp, Keys: []string{"a"}}}}); g != nil && len(g.Swamps) == 1 && len(g.Swamps[0].Treasures) == 1 {
+					final = valStr(g.Swamps[0].Treasures[0])
+				}
+				cancel()
+				vrt.Drain()
+			}
+			noPre := func(label string) bool {
+				for _, s := range []string{"SubscribeToEvents", "eventCallbackFunction", "sendEventToHydra", "SaveFunction", "stream.SendMsg", "Gateway.Set", "Gateway.IncrementInt32", "CreateTreasure", "guard", "fileWriterHandler"} {
+					if strings.Contains(label, s) {
+						return false
+					}
+				}
+				return true
+			}
+			e := &vrt.Explorer{Body: body, Stop: r.OutOfTime}
+			e.Shard, e.ShardN = r.Shard()
+			e.Cfg = vrt.Config{Bound: bound, Sites: true, NoPreempt: noPre, StepCap: 200000}
+			e.Check = func(x *vrt.Exec) {
+				r.Eval(1)
+				r.Count("same_key_executions", 1)
+				cs := map[string]any{"configuration": conf, "programs": pr, "schedule": x.Choices(), "preemptions": x.Cost, "admissible": admL}
+				compute := func(x *vrt.Exec) []vfail {
+					var out []vfail
+					if x.Deadlock {
+						return append(out, vfail{"events-concurrent", "deadlock", fmt.Sprintf("programs %v: blocked %v", pr, x.Blocked)})
+					}
+					for _, pn := range x.Panics {
+						out = append(out, vfail{"events-concurrent", "panic", pn})
+					}
+					var got []string
+					for _, msg := range st.msgs {
+						if ev := strip(evStr(msg)); strings.Contains(ev, " a=") {
+							got = append(got, ev)
+						}
+					}
+					obs := strings.Join(got, ";") + " => " + final
+					if !adm[obs] {
+						kind := "events-differ-from-every-commit-order"
+						seen := map[string]bool{}
+						for _, g := range got {
+							if seen[g] {
+								kind = "same-committed-value-announced-twice"
+							}
+							seen[g] = true
+						}
+						out = append(out, vfail{"events-concurrent", fmt.Sprintf("same-key:%s:%s", conf, kind), fmt.Sprintf("%s swamp, programs %v on key a (a=9 before): the stream and the final value read [%s]; sequential orders give %v", conf, pr, obs, admL)})
+					}
+					return out
+				}
+				vrtReport(r, e.Cfg, body, x, compute, cs)
+				if x.Cost > 0 {
+					r.Nontrivial(fmt.Sprintf("same%s%d/%v", conf, pi, x.Choices()))
+				}
+			}
+			e.Run()
+			if e.Stats.Capped {
+				r.NotExhaustive(fmt.Sprintf("same-key programs %v capped after %d executions", pr, e.Stats.Execs))
+			}
+		}
 	}
 }
